@@ -164,6 +164,10 @@ pub mod unix {
         let overridden = tokio::fs::remove_file(path.as_ref()).await.is_ok();
         let (sender, mut receiver) = tokio::sync::mpsc::unbounded_channel();
         let returned_sender = sender.clone();
+        // Bind before we return, not in the task: when this future has resolved, a message sent to
+        // `path` reaches us. Else, an instance started right after us finds no socket, assumes
+        // there is nobody to take over from, and we are never told to shut down.
+        let mut first_listener = Some(UnixListener::bind(path.as_ref()));
         let _task = spawn(async move {
             let path = path.as_ref();
             let sender = Arc::new(sender);
@@ -195,7 +199,10 @@ pub mod unix {
 
             // loop to not recurse function & recurse Arc<handler>
             'outer: loop {
-                match UnixListener::bind(path) {
+                match first_listener
+                    .take()
+                    .unwrap_or_else(|| UnixListener::bind(path))
+                {
                     Err(err) => {
                         error!("Failed to bind signal socket: {err}");
                         return;
